@@ -323,6 +323,11 @@ func c20Systematic(tier string) []*Case {
 			}
 			base := replCfg(c20SessionStdin(ls))
 			base.Budget = 30000000
+			if k == 4 {
+				// the user takes three seconds per line (matters only to a tree with timers: whatever
+				// a failing line leaves running fires during a later line)
+				base.ReadDelayMs, base.SchedSeed, base.SchedQuantum = 3000, 7, 20
+			}
 			out = append(out, c20Case(sess, []sim.Config{withDelivery(base, "all")}, []string{"all"}, "repeat"))
 		}
 	}
@@ -405,6 +410,7 @@ func c20Systematic(tier string) []*Case {
 		}
 		base := replCfg(c20SessionStdin(ls))
 		base.Budget = 200000000
+		base.ReadDelayMs, base.SchedSeed, base.SchedQuantum, base.ClockTickUs = int64(250*stride), int64(stride), 50, 100
 		cs := c20Case(sess, []sim.Config{withDelivery(base, "all")}, []string{"all"}, "marathon")
 		cs.Sig = fmt.Sprintf("marathon:stride%d", stride)
 		out = append(out, cs)
@@ -437,7 +443,9 @@ func c20Systematic(tier string) []*Case {
 	return out
 }
 
-func c20Random(s Src, tier string) *Case {
+func c20Random(s Src, tier string) *Case { return applySched(s, c20Random1(s, tier), true) }
+
+func c20Random1(s Src, tier string) *Case {
 	n := s.Int("nlines", 2, 12)
 	if Chance(s, "longsession", 1, 12) {
 		n = s.Int("nlines2", 13, 60)
